@@ -23,7 +23,12 @@ func main() {
 	dir := flag.String("dir", "", "child scratch dir (internal)")
 	replay := flag.String("replay", "", "replay file")
 	list := flag.Bool("list", false, "list properties")
+	role := flag.String("role", "", "helper process role (internal)")
 	flag.Parse()
+
+	if *role != "" {
+		os.Exit(fw.RunRole(*role, flag.Args()))
+	}
 
 	if *list {
 		for _, id := range fw.IDs() {
